@@ -308,6 +308,11 @@ func (p *printer) redir(r *ast.Redir) {
 		default:
 			p.space()
 		}
+	} else if r.Op == "<<" && len(r.Word) != 0 {
+		// "<<" and a delimiter that begins with "-" would be read as "<<-"
+		if w, ok := r.Word[0].(*ast.Lit); ok && len(w.Value) != 0 && w.Value[0] == '-' {
+			p.space()
+		}
 	}
 	p.word(r.Word)
 }
